@@ -27,6 +27,15 @@ CHECKS = {
  "C14": dict(cat="model_checking", ref="§5/C14",
    text="Subscription.tla models the pulled stream (produced / pulled / ended, delivered = min(pulled, produced)); TLC explores subscription documents x variables x event sequences (<= 3 events, each with its own resolver data: fine / raising / null / exception value) x every interleaving of event production, consumer pulls and source end, plus requests refused by validation or variable coercion; invariants R1_Sub and action property SubProgress; every terminal behaviour is driven through engine.subscribe() pull by pull: delivered count after each action, each response vs the big-step prediction with the payload as root value, stream end, source started exactly once / never when refused.",
    technique="TLA+ stream model (Subscription.tla) + TLC + replay through engine.subscribe() on a controlled asyncio loop"),
+ "C03": dict(cat="model_checking", ref="§5/C03",
+   text="Conform.tla defines conformance of a response to selection and schema (exact collected keys in order, lists, non-null, leaf kinds, enum membership, possible types) and is evaluated BY TLC on recorded executions: (a) every leaf/list/abstract-typed field of the covering schema x every value-token representative (alone and inside lists), (b) documents drawn by TLC in simulation mode executed with seeded adversarial resolver outputs (wrong Python types, nested garbage, boundary numbers, exception instances, raising resolvers, unknown runtime types). Each record is one trace; TLC also checks the envelope, JSON-serialisability, 'no errors => data not null' and the error-coercer count.",
+   technique="TLA+ conformance predicate (Conform.tla) evaluated by TLC on traces recorded from the engine (Trace_resp), documents generated by TLC -simulate"),
+ "C10": dict(cat="model_checking", ref="§5/C10",
+   text="Scalars.tla gives, for Int/Float/String/Boolean/ID and the three directions (result, variable input, literal), the set of allowed outcomes over a universe of 49 value tokens (boundary classes around 0, +-1, +-2^31, +-2^53, huge, integral/fractional/denormal/non-finite floats, numeric/blank/unicode strings, bools, containers); TLC checks the laws (wire type, forbidden/required input kinds, literal = variable, idempotence, totality) over the whole universe and prints the 630 cells; every cell x every concrete representative is executed through the engine (echo fields) and on the scalar objects of the built schema; the observed outcome must be in the allowed set.",
+   technique="TLA+ decision tables with TLC-checked laws (Scalars.tla) + replay of every cell through the engine"),
+ "C18": dict(cat="model_checking", ref="§5/C18",
+   text="Engine.tla classifies every request (syntax / validation / operation selection / variables / executed) and TLC checks that error classes answer data null and run nothing; the whole operation-selection x variables matrix is replayed under 3 error coercers x 3 contexts (coercer awaited once per error, its return value is the entry). Main part: mutated and random texts (str/bytes, invalid UTF-8, BOM, control characters, deep nesting, block strings) seeded from TLC-generated documents; each response is one trace judged by TLC (Envelope: dict with data, errors only when non-empty, string messages, path list-or-null, locations positive and inside the text, extensions only when set, JSON-serialisable; refused texts run nothing).",
+   technique="TLA+ envelope invariant evaluated by TLC on traces recorded from the engine + TLC-enumerated request matrix replay"),
 }
 NOT_YET = {}
 
